@@ -15,7 +15,7 @@ C20 — drift injectors change only the window and columns they are asked to cha
   windows 0 <= from <= to <= n for n <= 8, every column / column pair, class and probability
   menus; random larger tables.
 """
-import itertools, json, math, os
+import itertools, json, math, os, traceback
 import numpy as np
 import core
 
@@ -177,10 +177,31 @@ def call(inj, data, args, kw, seed):
             return None, type(ex).__name__, tap
 
 
-def evaluate(case, inj_mod):
-    """runs one case on the implementation, evaluates the property clauses, builds the model op"""
+def class_of(kind, inj_mod):
+    return {"shift": inj_mod.FeatureShiftInjector, "swap": inj_mod.FeatureSwapInjector,
+            "lswap": inj_mod.LabelSwapInjector, "ljoin": inj_mod.LabelJoinInjector,
+            "brown": inj_mod.BrownianNoiseInjector, "prob": inj_mod.LabelProbabilityInjector,
+            "dir": inj_mod.LabelDirichletInjector, "cover": inj_mod.FeatureCoverInjector}[kind]
+
+
+def tap_draws(calls):
+    """every value drawn by the recorded calls, flattened (a call with size= yields that many draws)"""
+    return [x for (_, _, r) in calls for x in np.asarray(r).ravel().tolist()]
+
+
+def evaluate(case, inj_mod, instance=None):
+    """runs one case on the implementation, evaluates the property clauses, builds the model op.
+    `case["prior"]` (a list of cases) is first run on the SAME injector object: a long-lived instance
+    must behave like a fresh one."""
     out = Outcome()
     kind, a = case["inj"], case["args"]
+    if instance is None:
+        instance = class_of(kind, inj_mod)()
+        for pc in case.get("prior") or []:
+            try:
+                evaluate(pc, inj_mod, instance=instance)
+            except Exception:
+                pass    # the prior calls are evaluated as cases of their own
     data = build(case)
     keep = data.copy()
     X = np.asarray(data, dtype=np.float64).reshape(len(case["cells"]), case["width"])
@@ -193,16 +214,12 @@ def evaluate(case, inj_mod):
         out.fails.append((fclass, what, detail))
 
     if kind == "cover":
-        return evaluate_cover(case, inj_mod, out, data, keep, X)
+        return evaluate_cover(case, inj_mod, out, data, keep, X, instance)
 
     f, t = a["from"], a["to"]
     col = pyval(a["col"])
     ci = col_index(case, a["col"])
     valid = ci is not None
-    cls = {"shift": inj_mod.FeatureShiftInjector, "swap": inj_mod.FeatureSwapInjector,
-           "lswap": inj_mod.LabelSwapInjector, "ljoin": inj_mod.LabelJoinInjector,
-           "brown": inj_mod.BrownianNoiseInjector, "prob": inj_mod.LabelProbabilityInjector,
-           "dir": inj_mod.LabelDirichletInjector}[kind]
     head = [kind] + data_tokens(case) + [str(f), str(t), a["col"]]
     targets = [ci]
     dict_arg = None
@@ -234,7 +251,7 @@ def evaluate(case, inj_mod):
         line = head + [str(len(a["alpha"]))] + [core.f2b(k) for k, _ in a["alpha"]]
     dict_keep = None if dict_arg is None else dict(dict_arg)
 
-    res, exc, tap = call(cls(), data, args, {}, seed)
+    res, exc, tap = call(instance, data, args, {}, seed)
     # the caller's objects are never written
     if not same_object(keep, data):
         fail("input-mutated", "the caller's data object changed during the call")
@@ -243,7 +260,7 @@ def evaluate(case, inj_mod):
 
     # ---- draws for the model
     if kind == "brown":
-        ds = [int(r) for (_, _, r) in tap.choice]
+        ds = [int(x) for x in tap_draws(tap.choice)]
         line += [str(len(ds))] + ["1" if d == 1 else "0" for d in ds]
         if any(d not in (1, -1) for d in ds):
             fail("brown-draws", "a random-walk step is not +1/-1", draws=ds)
@@ -256,8 +273,10 @@ def evaluate(case, inj_mod):
         if tap.choice:
             (ca, ck, cr) = tap.choice[0]
             sample = [int(x) for x in np.asarray(cr).ravel()]
-            if len(ca) >= 4 and not ck:
-                out.p = ([int(x) for x in ca[0]], [float(x) for x in ca[3]], ca[1], ca[2])
+            full = dict(zip(("a", "size", "replace", "p"), ca))
+            full.update(ck)
+            if all(k_ in full and full[k_] is not None for k_ in ("a", "size", "replace", "p")):
+                out.p = ([int(x) for x in full["a"]], [float(x) for x in full["p"]], full["size"], full["replace"])
             else:
                 fail(kind + "-choice-call", "np.random.choice is not called as choice(a, size, True, p)", args=repr(ca)[:200])
         line += [str(len(sample or []))] + [str(s) for s in (sample or [])]
@@ -324,7 +343,7 @@ def evaluate(case, inj_mod):
         c1, c2 = targets
         if not (np.array_equal(V[:, c1], W[:, c2]) and np.array_equal(V[:, c2], W[:, c1])):
             fail("swap-spec", "the two columns are not exchanged inside the window")
-        res2, exc2, _ = call(cls(), res, args, {}, seed)
+        res2, exc2, _ = call(instance, res, args, {}, seed)
         o2 = observe(res2) if exc2 is None else ("err", exc2)
         if o2[0] != "ok" or o2[5].shape != X.shape or not np.array_equal(o2[5], X):
             fail("swap-involution", "applying the swap twice does not restore the input")
@@ -334,7 +353,7 @@ def evaluate(case, inj_mod):
         exp = np.where(col0 == c2, c1, np.where(col0 == c1, c2, col0))
         if not np.array_equal(V[:, ci], exp):
             fail("lswap-spec", "the two classes are not exchanged inside the window")
-        res2, exc2, _ = call(cls(), res, args, {}, seed)
+        res2, exc2, _ = call(instance, res, args, {}, seed)
         o2 = observe(res2) if exc2 is None else ("err", exc2)
         if o2[0] != "ok" or o2[5].shape != X.shape or not np.array_equal(o2[5], X):
             fail("lswap-involution", "applying the class swap twice does not restore the input")
@@ -358,7 +377,7 @@ def evaluate(case, inj_mod):
         out.skip_model = integer
     elif kind == "brown":
         steps = t - f
-        ds = [int(r) for (_, _, r) in tap.choice]
+        ds = [int(x) for x in tap_draws(tap.choice)]
         if len(ds) != max(steps - 1, 0):
             fail("brown-draw-count", "the random walk does not draw steps-1 steps", draws=len(ds), steps=steps)
         else:
@@ -443,7 +462,7 @@ def prob_expectation(X, f, t, ci, cp):
             "absent": len(present) < len(classes) and m > 0}
 
 
-def evaluate_cover(case, inj_mod, out, data, keep, X):
+def evaluate_cover(case, inj_mod, out, data, keep, X, instance):
     a = case["args"]
     n, w = X.shape
     col = pyval(a["col"])
@@ -454,7 +473,7 @@ def evaluate_cover(case, inj_mod, out, data, keep, X):
     def fail(fclass, what, **detail):
         out.fails.append((fclass, what, detail))
 
-    inj = inj_mod.FeatureCoverInjector()
+    inj = instance
     draws = None
     if mode == "none":
         res, exc, tap = call(inj, data, (col, ss), {}, seed)
@@ -710,8 +729,43 @@ def corpus_cases():
             yield c["case"]
 
 
+REUSE_CHAINS = [   # (containers, widths) called one after the other on ONE injector object; the last one is the case
+    [("df-f", 3), ("nd-f", 3)], [("nd-f", 3), ("df-f", 3)], [("df-f", 3), ("nd-f", 4)], [("nd-f", 4), ("df-f", 3)],
+    [("df-f", 4), ("nd-f", 3)], [("df-f", 3), ("df-f", 4)], [("df-f", 3), ("nd-f", 3), ("df-r", 3)], [("df-r", 3), ("nd-i", 3)],
+    [("nd-f", 3), ("df-f", 3), ("nd-f", 3), ("df-f", 3)], [("df-m", 3), ("nd-f", 3), ("nd-f", 3)],
+]
+
+
+def simple_case(rng, kind, container, w, f, t, seed):
+    """one ordinary call of `kind` on a fresh 6-row table that has all three classes"""
+    cells, labels = make_table(rng, container, 6, w)
+    for i, r in enumerate(cells):
+        r[-1] = float(i % 3)
+    cols = col_tokens(container, labels, w)
+    args = {"swap": {"col": cols[0], "col2": cols[1]}, "shift": {"col": cols[0], "shift_factor": 0.5, "alpha": 0.001},
+            "lswap": {"col": cols[-1], "c1": 0.0, "c2": 1.0}, "ljoin": {"col": cols[-1], "c1": 0.0, "c2": 1.0, "new": 5.0},
+            "brown": {"col": cols[0], "x0": 0.5, "random_state": None}, "prob": {"col": cols[-1], "cp": [[0.0, 0.5]]},
+            "dir": {"col": cols[-1], "alpha": [[0.0, 4], [1.0, 1], [2.0, 2]]},
+            "cover": {"col": cols[-1], "sample_size": 3, "mode": "none"}}[kind]
+    if kind != "cover":
+        args.update({"from": f, "to": t})
+    return {"container": container, "labels": labels, "cells": cells, "width": w, "inj": kind, "args": args, "seed": int(seed)}
+
+
+def reuse_cases(ctx, rng):
+    """a long-lived injector object called on interleaved DataFrame / ndarray inputs (both orders, same and different widths)"""
+    for rep in range(1 if ctx.quick else 6):
+        for kind in ("shift", "swap", "lswap", "ljoin", "brown", "prob", "dir", "cover"):
+            for chain in REUSE_CHAINS:
+                for (f, t) in ((1, 4), (0, 6), (3, 3)):
+                    sb = int(rng.integers(1, 2**31 - 100))
+                    cs = [simple_case(rng, kind, c, w, f, t, sb + i) for i, (c, w) in enumerate(chain)]
+                    yield dict(cs[-1], prior=cs[:-1])
+
+
 def all_cases(ctx):
     yield from corpus_cases()
+    yield from reuse_cases(ctx, np.random.default_rng(ctx.seed + 4242))
     rng = np.random.default_rng(ctx.seed)
     nmax = 8
     tables = 1 if ctx.quick else 4
@@ -762,15 +816,25 @@ def run(ctx):
     warnings.simplefilter("ignore")     # np.mean of an empty window warns (the window is empty, nothing is written)
     ctx.rule = ("one case = (injector, container, table, window, column/class/probability arguments); exhaustive: every window "
                 "0<=from<=to<=n for n<=8 (quick tier: n<=8 on float ndarray / DataFrame, n<=6 on int ndarray, n<=5 on int / mixed / integer-labelled DataFrames) on every container kind x every column (pair) x the class / probability menus; plus random "
-                "tables with 9..40 rows; a case is non-trivial when the call returned a table that differs from the input "
+                "tables with 9..40 rows; plus, per injector class, one object called on interleaved DataFrame / ndarray inputs (both orders, same and different widths); a case is non-trivial when the call returned a table that differs from the input "
                 "(cover: returned a sample); distinct = distinct (injector, container, cells, arguments)")
     ctx.exhaustive = True
     lines = ["new inject"]
     pending = []
     known_seen = {}
     for case in all_cases(ctx):
-        out = evaluate(case, inj_mod)
+        try:
+            out = evaluate(case, inj_mod)
+        except core.Infra:
+            raise
+        except Exception:   # never abort the run: an adapter that cannot digest what a changed tree does is a broken correspondence
+            ctx.count("harness-exception")
+            ctx.mismatch(component="inject." + case["inj"], case=case, what="harness-side exception while evaluating the case",
+                         traceback=traceback.format_exc()[-1500:])
+            continue
         kind = case["inj"]
+        if case.get("prior"):
+            ctx.count("reuse")
         a = case["args"]
         ctx.case((kind, case["container"], case["cells"], sorted(a.items(), key=lambda kv: kv[0]).__repr__()), out.changed)
         ctx.count("inj:" + kind)
@@ -809,11 +873,18 @@ def run(ctx):
         if mline == "bad-op":
             raise core.Infra("driver could not parse: " + out.line[:200])
         ctx.traces += 1
-        compare(ctx, case, out, mline)
+        try:
+            compare(ctx, case, out, mline)
+        except core.Infra:
+            raise
+        except Exception:
+            ctx.count("harness-exception")
+            ctx.mismatch(component="inject." + case["inj"], case=case, what="harness-side exception while comparing with the model",
+                         traceback=traceback.format_exc()[-1500:])
     if not ctx.quick:
         chi2_test(ctx, inj_mod)
     # the input distribution must not degenerate
-    need = ["window:empty", "window:full", "window:proper", "prob:absent", "prob:drawn", "dir:drawn", "prob:invalid", "corpus", "prob:tolerance"] + \
+    need = ["window:empty", "window:full", "window:proper", "prob:absent", "prob:drawn", "dir:drawn", "prob:invalid", "corpus", "prob:tolerance", "reuse"] + \
            ["inj:" + k for k in ("shift", "swap", "lswap", "ljoin", "brown", "prob", "dir", "cover")]
     missing = [k for k in need if not ctx.stats.get(k)]
     if missing:
